@@ -253,6 +253,22 @@ impl Column {
         }
     }
 
+    /// Returns true if the column's enum values (if any) can be represented
+    /// in the `_Validation` table, which stores them as a single string with
+    /// the values separated by semicolons (and cannot tell the empty string
+    /// from having no enum values at all).
+    pub(crate) fn has_storable_enum_values(&self) -> bool {
+        if self.enum_values.len() == 1 && self.enum_values[0].is_empty() {
+            return false;
+        }
+        for value in self.enum_values.iter() {
+            if value.contains(';') {
+                return false;
+            }
+        }
+        true
+    }
+
     /// Returns true if the given string is a valid column name.
     pub(crate) fn is_valid_name(name: &str) -> bool {
         Category::Identifier.validate(name)
